@@ -57,6 +57,12 @@ func init() {
 			ruleNUM6(c)
 			ruleEMIT1(c, "NUM-7")
 		},
+		Thorough: func(c *Ctx) {
+			onInstances(c, func(c *Ctx) {
+				ruleNUM4(c)
+				ruleNUM5(c)
+			})
+		},
 	})
 	register(&PropSpec{
 		ID:    "C10",
@@ -73,6 +79,15 @@ func init() {
 			ruleLEX7(c)
 			ruleLEX8(c)
 		},
+		Thorough: func(c *Ctx) {
+			onInstances(c, func(c *Ctx) {
+				ruleFMT1(c)
+				ruleFMT3(c)
+				ruleFMT4(c)
+				ruleFMT5(c)
+				ruleFMT6(c)
+			})
+		},
 	})
 
 	register(&PropSpec{
@@ -87,6 +102,12 @@ func init() {
 			ruleFMT4(c)
 			ruleNG3(c)
 			ruleLEX1(c)
+		},
+		Thorough: func(c *Ctx) {
+			onInstances(c, func(c *Ctx) {
+				ruleNG3(c)
+				ruleFMT4(c)
+			})
 		},
 	})
 	register(&PropSpec{
@@ -156,6 +177,13 @@ func init() {
 			ruleFMT2(c)
 			ruleFMT3(c)
 		},
+		Thorough: func(c *Ctx) {
+			onInstances(c, func(c *Ctx) {
+				ruleLEX3(c)
+				ruleFMT1(c)
+				ruleFMT3(c)
+			})
+		},
 	})
 
 	register(&PropSpec{
@@ -169,6 +197,12 @@ func init() {
 			ruleMODE4(c)
 			ruleFMT3(c)
 		},
+		Thorough: func(c *Ctx) {
+			onInstances(c, func(c *Ctx) {
+				ruleMODE1(c)
+				ruleFMT3(c)
+			})
+		},
 	})
 	register(&PropSpec{
 		ID:    "C11",
@@ -179,6 +213,12 @@ func init() {
 			ruleEOFL(c)
 			ruleFMT3(c)
 			ruleLEX3(c)
+		},
+		Thorough: func(c *Ctx) {
+			onInstances(c, func(c *Ctx) {
+				ruleEOFL(c)
+				ruleLEX3(c)
+			})
 		},
 	})
 
@@ -192,6 +232,11 @@ func init() {
 			ruleACT2(c)
 			ruleACT3(c)
 			ruleBIND3(c)
+		},
+		Thorough: func(c *Ctx) {
+			onInstances(c, func(c *Ctx) {
+				ruleACT1(c)
+			})
 		},
 	})
 	register(&PropSpec{
@@ -216,6 +261,12 @@ func init() {
 			ruleREC234(c)
 			ruleNUM3(c)
 		},
+		Thorough: func(c *Ctx) {
+			onInstances(c, func(c *Ctx) {
+				ruleREC1(c)
+				ruleREC234(c)
+			})
+		},
 	})
 	register(&PropSpec{
 		ID:    "C16",
@@ -227,6 +278,12 @@ func init() {
 			ruleBND2(c)
 			ruleBND3(c)
 			ruleACT1(c)
+		},
+		Thorough: func(c *Ctx) {
+			onInstances(c, func(c *Ctx) {
+				ruleACT1(c)
+				ruleBND2(c)
+			})
 		},
 	})
 
